@@ -136,12 +136,43 @@ def main():
             res['error_text'] = str(ex)[:200]
         res['inputs_unchanged'] = all(sc.identical(env[k], snap[k], equal_nan=True) for k in env)
         out.append(res)
+    # History independence: forget the package's module state (caches, module-level tables), evaluate the same
+    # groups again in REVERSE order on freshly built operands and require bit-identical results.  A cache keyed too
+    # coarsely (unit but not dtype, values but not unit) or a module-level table updated in place gives another
+    # answer when the calls arrive in another order.
+    hv = []
+    if not req.get('no_history_pass'):
+        for m in list(sys.modules):
+            if m == 'scippneutron' or m.startswith('scippneutron.'):
+                del sys.modules[m]
+        first = {r['id']: r for r in out}
+        for g in reversed(req['groups']):
+            r1 = first[g['id']]
+            if 'build_error' in r1:
+                continue
+            env = {k: build_operand(v) for k, v in g['operands'].items()}
+            try:
+                second = {'result': describe_result(evaluate(g['expr'], env))}
+            except Exception as ex:
+                second = {'error': type(ex).__name__}
+            one = {'result': r1['result']} if 'result' in r1 else {'error': r1.get('error')}
+            if json.dumps(one, sort_keys=True) != json.dumps(second, sort_keys=True):
+                fn = g['expr'].get('call', '?') if isinstance(g['expr'], dict) else '?'
+                hv.append({'key': 'history-dependent-result:' + fn.split(':')[-1],
+                           'what': f'{fn} returns different results for the same operands depending on the calls made before it in '
+                                   f'the same process (group {g["id"]}: evaluated in the given order vs. in reverse order after '
+                                   f'forgetting the module state)',
+                           'replay': {'group': g, 'first': one, 'second': second,
+                                      'order': 'pass 1 = groups in the given order; pass 2 = scippneutron modules re-imported, groups in reverse order'}})
+                if len(hv) >= 5:
+                    break
     consts = {}
     import scipp.constants as const
     for nm in ('h', 'm_n'):
         c = getattr(const, nm)
         consts[nm] = {'value': exact(c.value), 'unit': unit_info(c.unit)}
-    print('RESULT ' + json.dumps({'groups': out, 'constants': consts, 'scipp': sc.__version__}))
+    print('RESULT ' + json.dumps({'groups': out, 'constants': consts, 'scipp': sc.__version__,
+                                  'harness_violations': hv}))
 
 
 if __name__ == '__main__':
